@@ -183,3 +183,62 @@ func VH_C19_append_configs() {
 	vAssert(vImp(r.configs.Latest.Index <= r.commitIndex, r.configs.IsCommitted()), "G3-config-at-or-below-commit-is-committed")
 	vReach("end")
 }
+
+//verif:check C08,C12,C10 stubs=env,valuefile,abslog,snapfs,restart reach=restarted,from-snapshot,from-log,end desc="openStorage rebuilds the configuration pair from log and snapshot label: after a restart the latest configuration is the newest configuration entry of the log, or the snapshot label's configuration if the log has none above the snapshot; the committed one is its predecessor (or the same)" bounds="log of 2..3 entries from index 1 (bootstrap configuration + update/configuration entries), optional snapshot at a committed index with compaction of a whole prefix"
+func VH_C08_restart_configs() {
+	L := 2 + vChoice(2)
+	n := vCfgFollower(L)
+	r, a := n.r, n.a
+	latest0 := r.configs.Latest.Index
+	// optionally a snapshot at a committed index; its label carries the newest configuration entry at or below it
+	si := uint64(vChoice(int(r.commitIndex) + 1))
+	if si > 0 {
+		var cfgAt Config
+		for k, kind := range n.kinds {
+			if kind == entryConfig && uint64(k)+1 <= si {
+				e := &entry{}
+				if err := e.decode(bytes.NewReader(a.ents[k])); err != nil {
+					panic(err)
+				}
+				if err := cfgAt.decode(e); err != nil {
+					panic(err)
+				}
+			}
+		}
+		term := uint64(0)
+		{
+			e := &entry{}
+			_ = e.decode(bytes.NewReader(a.ents[si-1]))
+			term = e.term
+		}
+		vPublishSnapshot(r, si, term, cfgAt, 10)
+		// and the log compacted up to it (whole prefix) or not
+		if vChoice(2) == 1 {
+			a.prev = si
+		}
+	}
+	st, a2, err := vRestart(a)
+	vAssert(err == nil, "restart-opens")
+	if err != nil {
+		return
+	}
+	vReach("restarted")
+	newest := uint64(0)
+	for k, kind := range n.kinds {
+		if kind == entryConfig && uint64(k)+1 > a2.prev && uint64(k)+1 <= a2.last() && uint64(k)+1 > st.snaps.index {
+			newest = uint64(k) + 1
+		}
+	}
+	if newest == 0 {
+		vReach("from-snapshot")
+		vAssert(st.configs.Latest.Index <= st.snaps.index && st.configs.Latest.Index >= 1, "G4-latest-from-snapshot-label")
+	} else {
+		vReach("from-log")
+		vAssert(st.configs.Latest.Index == newest, "G4-latest-is-newest-config-entry")
+	}
+	vAssert(st.configs.Latest.Index == latest0 || a2.last() < a.last(), "G4-same-latest-as-before-restart")
+	// (with a single configuration entry and no snapshot the predecessor is the empty configuration of index 0, exactly
+	// as right after bootstrap)
+	vAssert(st.configs.Committed.Index <= st.configs.Latest.Index, "G4-committed-is-a-predecessor")
+	vReach("end")
+}
